@@ -113,7 +113,7 @@ class Harness(cm.BaseB):
         ninit = len(initial_classes(kind, R, C))
         for li in range(len(LIMITS_C)):
             for ii in range(ninit):
-                for ni in range(7):
+                for ni in range(8):
                     yield {"k": "prod", "kind": kind, "R": R, "C": C, "lim": li, "init": ii, "names": ni}
 
     def one(self, case):
@@ -274,6 +274,11 @@ class Harness(cm.BaseB):
                 # an empty string (a blank spreadsheet cell) is a name too
                 names = {well_id(*sorted(empty)[-1]): ""} if empty else None
                 names_ok = not empty
+            elif ni == 7:
+                # a key that differs from a well ID by white space names no well of the labware
+                some = sorted(filled)[:1]
+                names = {("\t" + well_id(r, c) if (r + c) % 2 else well_id(r, c) + " "): "padded" for r, c in some} or {"A01 ": "padded"}
+                names_ok = False
             else:
                 names = {well_id(R, 0): "below"} if R < 26 else None
                 names_ok = R >= 26
@@ -300,6 +305,8 @@ class Harness(cm.BaseB):
             elif ni == 6:
                 names = ["" if not cols_filled[c] else None for c in range(C)]
                 names_ok = all(cols_filled)
+            elif ni == 7:
+                names = None  # (column names are positional: no keys)
             else:
                 names = [None] * (C - 1) if C > 1 else [None, None]
                 names_ok = False
